@@ -14,6 +14,13 @@ JUNK = [{"RUST_BACKTRACE": "1"}, {"NO_COLOR": "1"}, {"CLICOLOR_FORCE": "1", "TER
         {"HOME": "/nonexistent", "USER": "someone"}, {"SOURCE_DATE_EPOCH": "0"}, {"RUST_LOG": "debug"}, {"RUST_LOG": "trace", "ZERV_FORCE_RUST_LOG_OFF": "0"}, {"PAGER": "cat"},
         {"ZERV_TEST_NATIVE_GIT": "true", "ZERV_TEST_DOCKER": "false"}, {"TZDIR": "/nonexistent"}, {"LC_TIME": "tr_TR.UTF-8", "LC_NUMERIC": "de_DE.UTF-8"}, {"TMPDIR": "/nonexistent"},
         {"RANDOM_SEED": "7", "RUST_MIN_STACK": "8388608"}]
+# what CI systems export: none of it is an input of zerv (the branch, the commit and the tag come from git or from the command line)
+CI_VARS = {"CI": "true", "GITHUB_ACTIONS": "true", "GITHUB_HEAD_REF": "release/2.0", "GITHUB_REF_NAME": "release/2.0", "GITHUB_REF": "refs/heads/release/2.0", "GITHUB_BASE_REF": "main",
+           "GITHUB_SHA": "f" * 40, "GITHUB_RUN_NUMBER": "77", "GITLAB_CI": "true", "CI_COMMIT_REF_NAME": "develop", "CI_COMMIT_BRANCH": "develop", "CI_COMMIT_TAG": "v9.9.9",
+           "CI_COMMIT_SHA": "e" * 40, "CI_COMMIT_SHORT_SHA": "eeeeeee", "CI_PIPELINE_IID": "12", "BRANCH_NAME": "release/3", "GIT_BRANCH": "origin/release/3", "GIT_COMMIT": "d" * 40,
+           "BUILD_NUMBER": "78", "TRAVIS_BRANCH": "release/4", "TRAVIS_TAG": "v8.8.8", "CIRCLE_BRANCH": "release/5", "CIRCLE_TAG": "v7.7.7", "BITBUCKET_BRANCH": "release/6", "DRONE_BRANCH": "release/7",
+           "BUILD_SOURCEBRANCHNAME": "release/8", "BUILD_SOURCEBRANCH": "refs/heads/release/8", "APPVEYOR_REPO_BRANCH": "release/9", "BUILDKITE_BRANCH": "release/10", "SEMAPHORE_GIT_BRANCH": "release/11",
+           "VERSION": "6.6.6", "PACKAGE_VERSION": "5.5.5", "SETUPTOOLS_SCM_PRETEND_VERSION": "4.4.4", "SOURCE_DATE_EPOCH": "1234567890", "BUILD_DATE": "2001-02-03", "DIRTY": "1"}
 TS_TEMPLATES = ["{{ format_timestamp(value=bumped_timestamp) }}", "{{ format_timestamp(value=bumped_timestamp, format='%Y%m%d.%H%M') }}", "{{ format_timestamp(value=bumped_timestamp, format='%c|%x|%X|%A|%B') }}",
                 "{{ format_timestamp(value=last_timestamp, format='compact_datetime') }}", "{{ format_timestamp(value=bumped_timestamp, format='%H:%M %p %Z %z') }}",
                 "{{ hash(value=bumped_branch) }}.{{ hash_int(value=bumped_branch, length=9) }}", "{{ semver }} {{ pep440 }}", "{{ format_timestamp(value=bumped_timestamp, format='%s %j %U %W %G-%V-%u') }}",
@@ -233,6 +240,7 @@ def run_check(tier, seed):
                     e.pop("TZDIR", None)
                     jobs.append((n, c, repos[n], [], e))
                 jobs.append((n, c, repos[n], [], {"TZ": "UTC", "LANG": "C"}))                       # repetition
+                jobs.append((n, c, repos[n], [], dict(CI_VARS, TZ="UTC", LANG="C")))                # everything a CI system exports, at once
                 for g in gitconfigs:                                                              # the user's git configuration
                     jobs.append((n, c, repos[n], [], {"TZ": "UTC", "LANG": "C", "ZV_GITCONFIG": g}))
 
@@ -264,6 +272,23 @@ def run_check(tier, seed):
                 run.add_violation("oracle", {"stream": "env_matrix_git", "what": "output depends on the environment / working directory", "described": {"repository_state": n, "argv": c[:1] + extra + c[1:]},
                                              "environment": e, "cwd": cwd.replace(root, "<scratch>"), "baseline": [brc, bout.decode("utf-8", "replace")[:400], berr.decode("utf-8", "replace")[-200:]],
                                              "variant": [rc, out.decode("utf-8", "replace")[:400], err.decode("utf-8", "replace")[-200:]]}, True)
+        # repositories whose dates lie in the future, and calm states in general: the same command after a pause prints byte for byte the same
+        # (no masking of numbers near the wall clock here: nothing in these states reads it) and carries git's own dates
+        st2 = run.streams.setdefault("calm_git_states_repeated_after_a_pause", {"runs": 0})
+        calm = [n for n in ("tagged_clean", "future_dated_tagged_clean", "future_dated_ahead", "ahead", "detached", "shallow_clone") if n in repos]
+        pj = [(n, c) for n in calm for c in (["version", "--output-format=zerv"], ["version", "--schema=calver-base"], ["version", "--output-template=" + TS_TEMPLATES[9]])]
+        first = [oneg((n, c, repos[n], [], {"TZ": "UTC", "LANG": "C"})) for n, c in pj]
+        time.sleep(1.2)
+        second = [oneg((n, c, repos[n], [], {"TZ": "Pacific/Kiritimati", "LANG": "C"})) for n, c in pj]
+        for (n, c), a, b in zip(pj, first, second):
+            st2["runs"] += 2
+            run.evaluations += 2
+            if a[0] != b[0] or a[1] != b[1]:
+                run.add_violation("oracle", {"stream": "calm_git_states_repeated_after_a_pause", "what": "a state that does not read the clock prints something else 1.2 s later",
+                                             "described": {"repository_state": n, "argv": c}, "first": a[1].decode("utf-8", "replace")[-500:], "second": b[1].decode("utf-8", "replace")[-500:]}, True)
+            if n.startswith("future_dated") and a[0] == 0 and c[-1] == "--output-format=zerv" and b"bumped_timestamp: Some(40709" not in a[1]:
+                run.add_violation("oracle", {"stream": "calm_git_states_repeated_after_a_pause", "what": "the commit time of a future-dated commit is not reported as git records it",
+                                             "described": {"repository_state": n, "argv": c}, "output": a[1].decode("utf-8", "replace")[-500:]}, True)
     finally:
         shutil.rmtree(root, ignore_errors=True)
     return run
@@ -273,5 +298,5 @@ RULE = ("env_matrix_stdin_none: version/flow cases (stdin RON and source none; p
         "bumped timestamps) run once in TZ=UTC/LANG=C and again under K-1 random environments (10 time zones incl. +14/-11 so that the local date differs from the UTC date "
         "for every instant in at least one of them, 7 locales, 15 sets of unrelated variables, 3 working directories) plus a plain repetition; stdout and success must be "
         "identical (numbers within two hours of the wall clock masked); the base run of every non-template case must equal the model, which has no environment. "
-        "env_matrix_git: 12 real repository states x 9 commands from the repository root, via -C/--directory from elsewhere, from a subdirectory, under random environments and repeated. "
+        "env_matrix_git: real repository states (incl. a shallow clone, future-dated commits, a detached HEAD) x 9 commands from the repository root, via -C/--directory from elsewhere, from a subdirectory, under random environments, under everything CI systems export (GITHUB_*, CI_COMMIT_*, BRANCH_NAME, ... at once), and repeated; calm states repeated after a pause are compared unmasked. "
         "distinct_nontrivial = distinct successful outputs")
